@@ -143,29 +143,45 @@ def run_property(S, prop):
     if not reg:
         return
     _ensure_lock()
-    njobs = min(int(os.environ.get('VERIF_KANI_JOBS', '4')), len(reg))
-    # balance by expected time
-    reg_sorted = sorted(reg, key=lambda h: -h.get('expect_s', 60))
-    groups = [[] for _ in range(njobs)]
-    load = [0] * njobs
-    for h in reg_sorted:
+    # harnesses that need extra CBMC options (e.g. a larger field-sensitivity array size so that
+    # concrete bytes of a >64-byte buffer are constant-propagated) run in their own cargo-kani
+    # invocations; the rest are balanced by expected time over the job slots
+    special = {}
+    for h in reg:
+        if h.get('cbmc_args'):
+            special.setdefault(tuple(h['cbmc_args']), []).append(h)
+    plain = [h for h in reg if not h.get('cbmc_args')]
+    nslots = int(os.environ.get('VERIF_KANI_JOBS', '4'))
+    groups = []          # (harness list, extra args)
+    stub = ['-Z', 'stubbing'] if any(h.get('stubbing') for h in reg) else []
+    for key, hs in special.items():
+        groups.append((hs, stub + ['-Z', 'unstable-options', '--cbmc-args'] + list(key)))
+    nplain = max(1, min(nslots - len(groups), len(plain))) if plain else 0
+    pg = [[] for _ in range(nplain)]
+    load = [0] * nplain
+    for h in sorted(plain, key=lambda h: -h.get('expect_s', 60)):
         k = load.index(min(load))
-        groups[k].append(h)
+        pg[k].append(h)
         load[k] += h.get('expect_s', 60)
-    stub = any(h.get('stubbing') for h in reg)
+    groups += [(g, stub) for g in pg if g]
     jobs = []
-    base = 0
-    for k, g in enumerate(groups):
-        if not g:
-            continue
-        to = sum(h.get('timeout_s', 600) for h in g) + 400
-        extra = ['-Z', 'stubbing'] if stub else []
-        j = Job(base + k, [h['harness'] for h in g], to, extra)
-        j.start()
-        jobs.append((j, g))
-    t0 = time.time()
-    for j, g in jobs:
-        j.join()
+    pending = list(enumerate(groups))
+    running = []
+    free = list(range(nslots))
+    while pending or running:
+        while pending and free:
+            _, (g, extra) = pending.pop(0)
+            slot = free.pop(0)
+            to = sum(h.get('timeout_s', 600) for h in g) + 400
+            j = Job(slot, [h['harness'] for h in g], to, extra)
+            j.start()
+            running.append(j)
+            jobs.append((j, g))
+        for j in list(running):
+            j.join(timeout=1)
+            if not j.is_alive():
+                running.remove(j)
+                free.append(j.idx)
     S.build_s += 0
     for j, g in jobs:
         res = parse_log(j.log)
@@ -232,6 +248,8 @@ def playback(prop, h):
     shutil.copytree(HARNESS, work, ignore=shutil.ignore_patterns('target', '.git'))
     tdir = os.path.join(CACHE, 'kani-target-playback')
     extra = ['-Z', 'stubbing'] if h.get('stubbing') else []
+    if h.get('cbmc_args'):
+        extra += ['-Z', 'unstable-options', '--cbmc-args'] + list(h['cbmc_args'])
     cmd = ['cargo', 'kani', '--target-dir', tdir, '--exact', '--harness', '%s::%s' % (h['harness'].split('_')[0], h['harness']), '-Z', 'concrete-playback', '--concrete-playback=inplace'] + extra
     r = subprocess.run(cmd, cwd=work, env=_env(), stdout=subprocess.PIPE, stderr=subprocess.STDOUT, text=True, timeout=h.get('timeout_s', 600) + 600)
     src_changed = []
@@ -245,16 +263,19 @@ def playback(prop, h):
     names = []
     for p in src_changed:
         names += re.findall(r'fn (kani_concrete_playback_\w+)', open(p).read())
-    r2 = subprocess.run(['cargo', 'kani', 'playback', '-Z', 'concrete-playback', '--'] + names[:1], cwd=work, env=_env(),
+    # Kani emits one playback test per satisfied cover and one per failed check: run them all and
+    # keep the ones that fail natively
+    r2 = subprocess.run(['cargo', 'kani', 'playback', '-Z', 'concrete-playback', '--', 'kani_concrete_playback_' + h['harness']], cwd=work, env=_env(),
                         stdout=subprocess.PIPE, stderr=subprocess.STDOUT, text=True, timeout=1800)
-    failed = bool(re.search(r'test result: FAILED|panicked at', r2.stdout))
+    failing = re.findall(r'test \S*?(kani_concrete_playback_\w+) \.\.\. FAILED', r2.stdout)
+    failed = bool(failing)
     os.makedirs(os.path.join(VERIF, 'replays'), exist_ok=True)
     path = os.path.join(VERIF, 'replays', '%s-%s.json' % (prop, h['harness']))
     test_src = ''
     for p in src_changed:
-        m = re.search(r'(#\[test\]\s*fn kani_concrete_playback_\w+.*?\n}\n)', open(p).read(), re.S)
-        if m:
-            test_src = m.group(1)
+        for m in re.finditer(r'(#\[test\]\s*fn (kani_concrete_playback_\w+).*?\n}\n)', open(p).read(), re.S):
+            if m.group(2) in failing or (not failing and not test_src):
+                test_src += m.group(1)
     json.dump({'engine': 'kani', 'property': prop, 'obligation': h['id'], 'harness': h['harness'], 'claim': h.get('desc', ''),
                'playback_test': test_src, 'native_output_tail': r2.stdout[-1500:],
                'how': 'cargo kani -Z concrete-playback --concrete-playback=inplace generated the unit test above from the solver model; cargo kani playback ran it natively against /repo'},
